@@ -1480,7 +1480,11 @@ func (c *Conn) unpackDatagram(buf []byte) ([][]byte, error) {
 		return nil, nil
 	}
 	common := dtlsstate.CommonState(c.state)
-	if common.LocalVersion.Equal(protocol.Version1_3) ||
+	// A dual-stack endpoint that has not picked a version yet may receive a
+	// DTLS 1.3 ServerHello followed by ciphertext records in one datagram.
+	undecided13 := common.LocalVersion.Equal(protocol.Version{}) &&
+		c.handshakeConfig != nil && c.handshakeConfig.MaxVersion.Equal(protocol.Version1_3)
+	if common.LocalVersion.Equal(protocol.Version1_3) || undecided13 ||
 		protocol.IsDTLS13Ciphertext(protocol.ContentType(buf[0])) {
 		cidLength := len(common.LocalConnectionIDForInboundRecords())
 		state13, is13 := c.state.(*dtlsstate.State13)
